@@ -16,6 +16,17 @@ def main(tier, replay=None):
         "identity of the chosen definition is observed as (file, line) of proto.references[k].referenced_definition "
         "and through the widths the fields get (every definition has its own width)",
     ]
+    # design level: TLC writes every small program over {A, B} and checks the machine against the
+    # declarative restatement (Visible / Valid) computed from positions in the finished text
+    from .. import tlc as _tlc
+    from . import designlevel as _dl
+    _cfg = open(common.SPEC + "/MC_Compiler.cfg").read().replace("MaxDecls = 4", "MaxDecls = %d" % (5 if tier == "quick" else 7))
+    _r = _dl.run_cfg("MC_Compiler", _cfg, timeout=3000)
+    _tlc.machinery_check(_r, "MC_Compiler")
+    rep.add_tlc(_r, "design:every single-file program of <= %d declarations over {A,B}: machine vs declarative Visible/Valid"
+                % (5 if tier == "quick" else 7))
+    if not _r.ok:
+        raise common.MachineryError("MC_Compiler violated: %s" % _r.violated)
     n = 1500 if tier == "quick" else 40000
     traces, progs = [], []
     with common.Scratch("c11") as scratch:
